@@ -110,5 +110,5 @@ Proof.
   - unfold chunks, chunk_runs. exact (in_map (fun run0 => chunk_of H (inrun run0) t) _ _ Hr).
   - unfold verify. apply andb_false_iff. left. apply Nat.leb_gt.
     pose proof (kdepth_chunk H (inrun run) k t (inrun_self run _ _ He)) as Hd.
-    unfold MAX_PROOF_DEPTH. lia.
+    assert (MAX_PROOF_DEPTH = 128) as -> by reflexivity. lia.
 Qed.
